@@ -142,7 +142,66 @@ def oracle_surface(args):
         "; ".join(problems) or "ok"
 
 
-ORACLES = {"whole_run": rc.oracle_whole_run, "first_crossing": oracle_first_crossing, "surface": oracle_surface}
+@safe_oracle
+def oracle_frustrated_reset(args):
+    """an attempt that turns out to be FRUSTRATED is an attempt all the same: after it the accumulated probability is zero and
+    a fresh threshold (the next of the user list) is in force, so the next attempt comes at the first later step whose fresh
+    accumulation exceeds the fresh threshold"""
+    from .. import eleccommon as ec
+    rng = np.random.Generator(np.random.PCG64(args["seed"]))
+    c = ec.elec_case(rng, N=int(args["N"]), n=int(args["n"]), rho_kind="pure", scale=0.3)
+    c["dt"] = float(args["dt"])
+    k = int(args["state"]) % c["N"]
+    # every other state lies far above the active one: any attempt from k is frustrated
+    for H in (c["H0"], c["H1"]):
+        for j in range(c["N"]):
+            if j != k:
+                H[j, j] += 1e6
+    zl = [float(z) for z in args["zetas"]]
+    t = ec.make_traj(c, "exp", cls="TrajectoryCum", zeta_list=list(zl))
+    t.state = k
+    e0, e1 = ec.elecs(c)
+    t.electronics = e1                    # (simulate() keeps the current electronics here; hop_to_it reads the coupling from it)
+    problems, Gsum, zi = [], 0.0, 1
+    zeta = zl[0]
+    attempts = 0
+    for step in range(int(args["steps"])):
+        W = np.asarray(t.hamiltonian_propagator(e0, e1))
+        rho = np.asarray(t.rho)
+        g = 2.0 * np.imag(rho[k, :] * W[:, k]) * c["dt"] / np.real(rho[k, k])
+        g[k] = 0.0
+        g = np.maximum(g, 0.0)
+        Gsum += float(np.sum(g))
+        acc = -math.expm1(-Gsum)
+        nfr0 = len(t.tracer.events.get("frustrated_hop", []))
+        t.surface_hopping(e0, e1)
+        attempted = len(t.tracer.events.get("frustrated_hop", [])) > nfr0
+        want = acc > zeta and abs(acc - zeta) > 1e-12 * max(acc, zeta)
+        if abs(acc - zeta) <= 1e-12 * max(acc, zeta):
+            want = attempted
+        if attempted != want:
+            problems.append("step %d: attempted=%s, accumulated %r vs threshold %r (state %d, every hop frustrated)" % (step, attempted, acc, zeta, k))
+            break
+        if t.state != k:
+            problems.append("step %d: a hop over a gap of 1e6 was accepted" % step)
+            break
+        if attempted:
+            attempts += 1
+            if float(t.prob_cum) != 0.0:
+                problems.append("step %d: after the frustrated attempt the accumulated probability is %r, not 0" % (step, float(t.prob_cum)))
+                break
+            if zi < len(zl) and float(t.zeta) != zl[zi]:
+                problems.append("step %d: after the frustrated attempt the threshold is %r, the next of the list is %r" % (step, float(t.zeta), zl[zi]))
+                break
+            zeta = float(t.zeta)
+            zi += 1
+            Gsum = 0.0
+        t.propagate_electronics(e0, e1, c["dt"])
+    return not problems, {"attempts": attempts, "problems": problems}, {"problems": []}, "; ".join(problems) or "ok"
+
+
+ORACLES = {"whole_run": rc.oracle_whole_run, "first_crossing": oracle_first_crossing, "surface": oracle_surface,
+           "frustrated_reset": oracle_frustrated_reset}
 
 
 def _gen_seq(rng, thorough):
@@ -228,6 +287,14 @@ def run(ctx):
         ctx.monitor("max_total_rate_through_surface_hopping", float(obs["G"]))
         if not ok:
             ctx.oracle_fail("cumulative-surface-hopping:%s" % a["option"], "surface", a, obs, req, text)
+    for i in range(ctx.budget(20, 800)):
+        a = {"seed": int(rng.integers(1, 2 ** 31)), "N": int(rng.integers(2, 5)), "n": int(rng.integers(1, 3)), "state": int(rng.integers(0, 4)),
+             "dt": float(rng.choice([1.0, 5.0, 20.0])), "steps": int(rng.integers(6, 16)), "zetas": [float(z) for z in rng.random(20) * 0.3]}
+        ok, obs, req, text = oracle_frustrated_reset(a)
+        ctx.case(("frustrated-reset", a["N"], min(int(obs["attempts"]), 3)))
+        ctx.count("frustrated_attempts_through_surface_hopping", int(obs["attempts"]))
+        if not ok:
+            ctx.oracle_fail("cumulative-frustrated-reset", "frustrated_reset", a, obs, req, text)
     cases, lines = [], []
     for i in range(ctx.budget(250, 20000)):
         seq, zetas, regime = _gen_seq(rng, ctx.thorough())
